@@ -370,6 +370,16 @@ func (t *tracer) origins(v ssa.Value) []ssa.Value {
 				switch a := addr.(type) {
 				case *ssa.Alloc:
 					vals := t.storesTo(a)
+					// a purely local cell: only the stores that can reach this load (flow-sensitive; `return 0, nil`
+					// stores into the named results, but not on a path to a later read of them)
+					if x.X == ssa.Value(a) {
+						if rs, ok := reachingStores(x); ok && len(rs) > 0 {
+							vals = vals[:0]
+							for _, st := range rs {
+								vals = append(vals, st.Val)
+							}
+						}
+					}
 					if len(vals) == 0 {
 						addRoot(v)
 					}
@@ -545,4 +555,41 @@ func (t *tracer) walkChan(ch ssa.Value, depth int, walk func(ssa.Value, int), ad
 	if n == 0 {
 		addRoot(self)
 	}
+}
+
+// originsNH is origins, continued through the parameters of NEW helpers (see isNewHelper) that have a single call site:
+// when a piece of an anchored function moves into such a helper, the values it worked on arrive as arguments.
+func (t *tracer) originsNH(v ssa.Value) []ssa.Value {
+	var out []ssa.Value
+	seen := map[ssa.Value]bool{}
+	var add func(vs []ssa.Value, depth int)
+	add = func(vs []ssa.Value, depth int) {
+		for _, r := range vs {
+			if seen[r] {
+				continue
+			}
+			seen[r] = true
+			if prm, ok := r.(*ssa.Parameter); ok && depth < 3 {
+				h := prm.Parent()
+				if site, ok := soleCallSite(h).(ssa.CallInstruction); ok && isNewHelper(h) {
+					args := site.Common().Args
+					if site.Common().IsInvoke() {
+						args = nil
+					}
+					for i, fp := range h.Params {
+						if fp == prm && i < len(args) {
+							add(t.origins(args[i]), depth+1)
+							r = nil
+						}
+					}
+					if r == nil {
+						continue
+					}
+				}
+			}
+			out = append(out, r)
+		}
+	}
+	add(t.origins(v), 0)
+	return out
 }
